@@ -197,7 +197,12 @@ class Installed:
         for c in contracts:
             if c.assumed:
                 continue
-            mod, owner, func = resolve_target(c.target)
+            try:
+                mod, owner, func = resolve_target(c.target)
+            except (AttributeError, KeyError, ImportError):
+                # the function under contract is gone (renamed, inlined): nothing to wrap - the whole-text laws of the stand-in still judge the behaviour
+                self.missing = getattr(self, "missing", []) + [c.qualname]
+                continue
             ck = Checker(c, spec_funcs, func)
             self.checkers[c.qualname] = ck
             wrapper = self._wrap(ck, func)
